@@ -40,6 +40,7 @@ pub struct Index {
     pub n_fns: usize,
     pub n_templates: usize,
     pub root: PathBuf,
+    pub shadowed_structs: Vec<StructDef>,
 }
 
 pub fn ty_str(t: &syn::Type) -> String {
@@ -132,7 +133,8 @@ impl Index {
                     }
                     let mut derives = Vec::new();
                     for a in &s.attrs { if a.path().is_ident("derive") { let _ = a.parse_nested_meta(|m| { if let Some(i) = m.path.segments.last() { derives.push(i.ident.to_string()); } Ok(()) }); } }
-                    self.structs.insert(s.ident.to_string(), StructDef { name: s.ident.to_string(), fields, derives });
+                    let sd = StructDef { name: s.ident.to_string(), fields, derives };
+                    if let Some(old) = self.structs.insert(s.ident.to_string(), sd) { self.shadowed_structs.push(old); }
                 }
                 syn::Item::Enum(e) => {
                     self.enums.insert(
@@ -187,7 +189,13 @@ impl Index {
     }
 
     pub fn field_ty(&self, struct_name: &str, field: &str) -> Option<syn::Type> {
-        let s = self.structs.get(struct_name)?;
-        s.fields.iter().find(|(n, _)| n == field).map(|(_, t)| t.clone())
+        if let Some(s) = self.structs.get(struct_name) {
+            if let Some((_, t)) = s.fields.iter().find(|(n, _)| n == field) { return Some(t.clone()); }
+        }
+        // same-named structs in other modules
+        for s in &self.shadowed_structs {
+            if s.name == struct_name { if let Some((_, t)) = s.fields.iter().find(|(n, _)| n == field) { return Some(t.clone()); } }
+        }
+        None
     }
 }
